@@ -31,7 +31,7 @@ Definition clause_ok (p : possi) (c : clause) : Prop :=
   end.
 Inductive clauses_ok : possi -> list (str * clause) -> Prop :=
 | co_nil p : clauses_ok p []
-| co_cons p w c r : all_ws w -> w <> [] -> clause_ok p c -> clauses_ok (apply_clause p c) r -> clauses_ok p ((w, c) :: r).
+| co_cons p w c r : all_ws w -> clause_ok p c -> clauses_ok (apply_clause p c) r -> clauses_ok p ((w, c) :: r).   (* w may be EMPTY: "foo(>= 1)[amd64]<x>" *)
 Definition clauses_text (cl : list (str * clause)) : str :=
   List.concat (map (fun wc => fst wc ++ clause_text (snd wc)) cl).
 
@@ -102,7 +102,7 @@ Theorem controllers_any_order : forall cl p rest rest', clauses_ok p cl -> tail_
 Proof.
   induction cl as [|[w c] cl IH]; intros p rest rest' W T.
   - exists 1%nat. intros [|f] Hf; [lia|]. cbn [clauses_text map List.concat app fold_left]. now apply controllers_end.
-  - inversion W as [|? ? ? ? Hw Hne Hc Wr]; subst. specialize (IH (apply_clause p c) rest rest' Wr T).
+  - inversion W as [|? ? ? ? Hw Hc Wr]; subst. specialize (IH (apply_clause p c) rest rest' Wr T).
     unfold clauses_text in *. cbn [map List.concat fst snd fold_left]. rewrite <- !app_assoc.
     eapply evOk_ext; [intros f; apply (controllers_ws_norm f p w _ Hw)|].
     destruct c as [w1 w2 w3 v|nt w0 items|w0 items]; cbn [clause_text apply_clause clause_ok] in *.
